@@ -145,6 +145,8 @@ func (u *upgrader) Upgrade(ctx context.Context, t transport.Transport, maconn ma
 
 func (u *upgrader) upgrade(ctx context.Context, t transport.Transport, maconn manet.Conn, dir network.Direction, p peer.ID, connScope network.ConnManagementScope) (transport.CapableConn, error) {
 	if dir == network.DirOutbound && p == "" {
+		// like every other error exit: the connection we were handed is ours to close
+		maconn.Close()
 		return nil, ErrNilPeer
 	}
 	var stat network.ConnStats
